@@ -939,7 +939,6 @@ Verdict ObjsEngine::execute(const Plan& plan, EventLog& log, Stats& st)
 {
   L = &log; ST = &st;
   for (auto& s : S) s.drop();
-  log.line("seed %s", plan.get("seed").c_str());
   Verdict v;
   int i = 0;
   try {
